@@ -4,6 +4,7 @@ use serde_json::Value;
 pub mod c01;
 pub mod c02;
 pub mod c03;
+pub mod c04;
 pub mod c05;
 pub mod c06;
 pub mod c07;
@@ -34,6 +35,7 @@ pub fn registry() -> Vec<PropDef> {
         PropDef { id: "C01", run: c01::run, replay: c01::replay },
         PropDef { id: "C02", run: c02::run, replay: c02::replay },
         PropDef { id: "C03", run: c03::run, replay: c03::replay },
+        PropDef { id: "C04", run: c04::run, replay: c04::replay },
         PropDef { id: "C05", run: c05::run, replay: c05::replay },
         PropDef { id: "C06", run: c06::run, replay: c06::replay },
         PropDef { id: "C07", run: c07::run, replay: c07::replay },
